@@ -69,8 +69,9 @@ type simDevice struct {
 	faults     bool
 	faultsLeft int
 	faultLog   []string
-	calls      int // driver calls made (all kinds)
-	allocCalls int // AllocateMemory calls made
+	calls      int   // driver calls made (all kinds)
+	allocCalls int   // AllocateMemory calls made
+	allocTypes []int // memory type index of every AllocateMemory attempt (failed ones included)
 
 	// requirements reported for the next created buffer / image
 	nextReq    core1_0.MemoryRequirements
@@ -126,6 +127,7 @@ func (d *simDevice) liveBytesOfHeap(heap int) int {
 
 func (d *simDevice) AllocateMemory(cb *loader.AllocationCallbacks, o core1_0.MemoryAllocateInfo) (core1_0.DeviceMemory, common.VkResult, error) {
 	d.allocCalls++
+	d.allocTypes = append(d.allocTypes, o.MemoryTypeIndex)
 	if d.fault("AllocateMemory") {
 		return core1_0.DeviceMemory{}, core1_0.VKErrorOutOfDeviceMemory, core1_0.VKErrorOutOfDeviceMemory.ToError()
 	}
